@@ -219,7 +219,26 @@ def run_cases(ctx, engine, n=0, seed=1, cases_file=None, origin="generated", tag
     p = subprocess.run(cmd, stdout=subprocess.PIPE, stderr=subprocess.PIPE, text=True, env=env, timeout=7200)
     stats = {}
     if p.returncode != 0:
-        ctx.build_failures.append(("harness run %s crashed (rc=%d)" % (engine, p.returncode), (p.stdout + p.stderr)[-4000:]))
+        # the Go process died (a Go `fatal error` such as "concurrent map read and map write" cannot be recovered):
+        # the harness leaves the payload it was running in <obs>.cur — re-run that case alone to confirm, and report
+        # it as a concrete failing input
+        cur = obs + ".cur"
+        tail = (p.stdout + p.stderr)
+        if os.path.exists(cur) and tag != "crash":
+            payload = open(cur).read()
+            one = os.path.join(ctx.dir, "%s.crash.cases" % engine)
+            with open(one, "w") as f:
+                f.write(payload + "\n")
+            for attempt in range(5):
+                cmd2 = [ctx.hbin, "run", engine, "-seed", str(seed), "-n", "0", "-req", req + ".crash", "-obs",
+                        obs + ".crash", "-tier", ctx.tier, "-cases", one]
+                p2 = subprocess.run(cmd2, stdout=subprocess.PIPE, stderr=subprocess.PIPE, text=True, env=env, timeout=600)
+                if p2.returncode != 0:
+                    m = re.search(r"^(fatal error: .*|panic: .*|SIGSEGV.*)$", p2.stdout + p2.stderr, re.M)
+                    why = m.group(1) if m else "process exited with rc=%d" % p2.returncode
+                    return [Case(engine, payload, "CRASH " + why[:200], "-", "-", "crash")], stats
+            tail = "case running when the process died (did not crash again in 5 runs alone): %s\n%s" % (payload[:500], tail)
+        ctx.build_failures.append(("harness run %s crashed (rc=%d)" % (engine, p.returncode), tail[-4000:]))
         return [], stats
     try:
         stats = json.loads(p.stdout.strip().splitlines()[-1])
@@ -367,6 +386,8 @@ def go_core(obs):
 
 def prop_violation(c, prop=None):
     """A concrete input on which the Go code contradicts the property."""
+    if c.go.startswith("CRASH "):
+        return "the Go process running the real code died on this input: " + c.go[6:]
     rule = (prop or {}).get("violation_if", {}).get(c.engine)
     if rule and re.search(rule, c.go):
         return "go observation matches /%s/: %s" % (rule, c.go[:200])
@@ -658,8 +679,13 @@ def write_evidence(ctx, cases, stats_all, violations, corr, known_hit):
         "wall_s": round(time.time() - ctx.t0, 2),
         "violations": len(violations) + (1 if (corr or ctx.build_failures) and not violations else 0),
     }
-    os.makedirs(os.path.join(VERIF, "evidence"), exist_ok=True)
-    with open(os.path.join(VERIF, "evidence", ctx.pid + ".json"), "w") as f:
+    # evidence/ holds runs against /repo itself only: a run against another tree (VERIF_REPO / VERIF_TAG, used for
+    # seeded changes) leaves its evidence in its own scratch build directory
+    evdir = os.path.join(VERIF, "evidence")
+    if REPO != "/repo" or os.environ.get("VERIF_TAG"):
+        evdir = ctx.dir
+    os.makedirs(evdir, exist_ok=True)
+    with open(os.path.join(evdir, ctx.pid + ".json"), "w") as f:
         json.dump(ev, f, indent=1, ensure_ascii=False, sort_keys=True)
         f.write("\n")
 
